@@ -454,6 +454,181 @@ def constructed_cases(tier, rng, extended=False):
                 yield c
 
 
+
+# ---------------------------------------------------------------- ECM: curves with independently computed point order
+
+def _inv(x, p):
+    return pow(x, -1, p)
+
+
+def ed_add(P, Q, a, d, p):
+    """affine addition on a x^2 + y^2 = 1 + d x^2 y^2 (complete when a is a square and d is not)"""
+    x1, y1 = P
+    x2, y2 = Q
+    t = d * x1 * x2 % p * y1 % p * y2 % p
+    return ((x1 * y2 + y1 * x2) * _inv(1 + t, p) % p, (y1 * y2 - a * x1 * x2) * _inv(1 - t, p) % p)
+
+
+def ed_mul(k, P, a, d, p):
+    R = (0, 1)
+    while k:
+        if k & 1:
+            R = ed_add(R, P, a, d, p)
+        P = ed_add(P, P, a, d, p)
+        k >>= 1
+    return R
+
+
+def curve_d(x, y, a, p):
+    den = x * x % p * y % p * y % p
+    if den == 0:
+        return None
+    return (a * x * x + y * y - 1) * _inv(den, p) % p
+
+
+def factor_td(m):
+    fs = {}
+    for r in small_primes(1 << 21):
+        if r * r > m:
+            break
+        while m % r == 0:
+            fs[r] = fs.get(r, 0) + 1
+            m //= r
+    if m > 1:
+        fs[m] = fs.get(m, 0) + 1
+    return fs
+
+
+def point_order(x, y, a, p):
+    """order of (x, y) on the (twisted) Edwards curve through it modulo the prime p, by baby-step giant-step over the
+    Hasse interval; None unless the curve is complete (a square, d non-square: then the affine law has no exceptions)"""
+    d = curve_d(x, y, a, p)
+    if d is None or d in (0, 1) or jacobi(d, p) != -1:
+        return None
+    if a == -1 and p % 4 != 1:
+        return None
+    G = (x % p, y % p)
+    w = math.isqrt(4 * p) + 2
+    lo = p + 1 - w
+    Q = ed_mul(lo, G, a, d, p)
+    s = math.isqrt(2 * w) + 1
+    baby = {}
+    R = (0, 1)
+    for j in range(s):
+        baby.setdefault(R, j)
+        R = ed_add(R, G, a, d, p)
+    msG = ((-R[0]) % p, R[1])
+    T = ((-Q[0]) % p, Q[1])
+    m = None
+    for i in range(s + 2):
+        if T in baby:
+            m = lo + i * s + baby[T]
+            break
+        T = ed_add(T, msG, a, d, p)
+    if not m or ed_mul(m, G, a, d, p) != (0, 1):
+        return None
+    for r in list(factor_td(m)):
+        while m % r == 0 and ed_mul(m // r, G, a, d, p) == (0, 1):
+            m //= r
+    return m
+
+
+def split_order(o, b1):
+    """o = s*l with s | (SmoothBase exponent for b1: prime powers < b1, times 2^4 and 3) and l a prime >= b1: l (1 if o | E), else None"""
+    m = o
+    for r in small_primes(b1 - 1):
+        cap = r
+        while cap * r < b1:
+            cap *= r
+        cap *= 16 if r == 2 else 3 if r == 3 else 1
+        c = 1
+        while m % r == 0 and cap % (c * r) == 0:
+            m //= r
+            c *= r
+        if m % r == 0:
+            return None
+    if m == 1:
+        return 1
+    return m if is_prime(m) and m >= b1 else None
+
+
+ECM_POINTS = {1: [(2, 3), (5, 13), (2, 5), (3, 31), (4, 9)], -1: [(5, 13), (2, 5), (11, 7), (3, 31), (3, 7)]}
+ECM128_PLANS = [(16, 660), (40, 1080), (50, 1920), (60, 1920), (100, 3000), (180, 7700), (350, 13200), (600, 20000),
+                (1000, 53000), (1500, 81000)]
+ECM_PLANS = [(200, 7700), (600, 20000), (2000, 81000), (100, 3000), (50, 1920), (2500, 126000), (2000, 323000)]
+_ECM_Q = {}
+
+
+def ecm_strong_q(rng, a, pt):
+    """a prime q = 1 mod 4 for which the point has an order with a prime factor > 10^7 (beyond every grid used here)"""
+    if (a, pt) not in _ECM_Q:
+        found = []
+        while len(found) < 2:
+            q = next_prime(rng.getrandbits(40) | (1 << 39))
+            if q % 4 != 1:
+                continue
+            o = point_order(pt[0], pt[1], a, q)
+            if o is None:
+                continue
+            big = max(factor_td(o))
+            if big > 10 ** 7 and is_prime(big):
+                found.append(q)
+        _ECM_Q[(a, pt)] = found
+    return rng.choice(_ECM_Q[(a, pt)])
+
+
+def ecm_search(rng, attempts, per_class=4):
+    """search primes p for which the order of a fixed small point is (stage-1 smooth) * l with l at the interesting places"""
+    want = {}
+    for _ in range(attempts):
+        a = rng.choice([1, -1])
+        b1, b2 = rng.choice(ECM128_PLANS if a == -1 else ECM_PLANS)
+        lab, d1, d2 = nearest("ecm", b2)
+        eff = sym_eff(d1, d2)
+        place = rng.choice(["first", "mid", "last", "out", "gap"])
+        pt = rng.choice(ECM_POINTS[a])
+        sbits = rng.choice([8, 10, 12, 14])
+        if place == "first":
+            L = b1 + rng.randrange(0, max(4, b1 // 2))
+        elif place == "gap":
+            L = rng.randrange(b1, max(b1 + 2, d1 // 2 + 10))
+        elif place == "mid":
+            L = rng.randrange(b1, eff)
+        elif place == "last":
+            L = eff - rng.randrange(0, max(8, eff // 12))
+        else:
+            L = eff + rng.randrange(1, max(8, eff // 10))
+        p = next_prime((L << sbits) + rng.getrandbits(sbits))
+        if (a == -1 and p % 4 != 1) or p > 1 << 40:
+            continue
+        o = point_order(pt[0], pt[1], a, p)
+        if o is None:
+            continue
+        l = split_order(o, b1)
+        if l is None or l == 1 or l > 1.25 * eff:
+            continue
+        cls = ("first" if l < 1.5 * b1 else "gap" if l <= d1 // 2 else "last" if eff * 11 // 12 <= l <= eff else
+               "out" if l > eff else "mid")
+        key = (a, b1, b2, cls)
+        if want.get(key, 0) >= per_class:
+            continue
+        q = ecm_strong_q(rng, a, pt)
+        if p == q:
+            continue
+        want[key] = want.get(key, 0) + 1
+        op = "s2_ecm" if a == 1 else "s2_ecm128"
+        yield Case(f"{op} {p * q} {pt[0]} {pt[1]} {b1} {b2} {p} {l}", tag=f"ecm/{cls}")
+
+
+def ecm_annotation_ok(case):
+    """the annotations of an ECM request, recomputed: p | n prime, order of the point mod p = s*l as claimed"""
+    n, x, y, b1, b2, p, l = (int(v) for v in case.args[:7])
+    a = 1 if case.op == "s2_ecm" else -1
+    if n % p or not is_prime(p):
+        return False
+    o = point_order(x, y, a, p)
+    return o is not None and split_order(o, b1) == l and is_prime(l)
+
 # ---------------------------------------------------------------- helper routines
 
 
@@ -564,18 +739,50 @@ def rho_cases(rng, N):
                        k=False, tag="rho_impl")
 
 
+_LARGES = None
+
+
+def larges_index(l):
+    """index of the prime l in PM1Base::larges (primes >= 500 in increasing order, at most 65536 of them), or None"""
+    global _LARGES
+    if _LARGES is None:
+        ps = [p for p in small_primes(900000) if p >= 500][:64 * 1024]
+        _LARGES = {p: i for i, p in enumerate(ps)}
+    return _LARGES.get(l)
+
+
 def pm1base_cases(rng, N):
-    for i in range(N):
-        budget = rng.choice([500, 1000, 1500, 4000, 20000, 66000])
-        l = next_prime(rng.randrange(503, 800000))
-        s = smooth_part(rng, 500, True, rng.choice([6, 10, 14]))
+    """PM1Base::factor(n, budget): p - 1 = s*l, s | (powers < 1024 of primes < 500), l among the large primes"""
+    made = 0
+    for i in range(20 * N):
+        if made >= N:
+            break
+        budget = rng.choice([500, 1000, 1001, 1024, 1500, 4000, 20000, 66000])
+        l = next_prime(rng.randrange(500, rng.choice([600, 5000, 50000, 800000])))
+        smax = (1 << 31) // l
+        s = 2
+        for _ in range(rng.randrange(0, 4)):
+            r = rng.choice([2, 2, 3, 3, 5, 7, 11, 13, 29, 97, 499])
+            if s * r <= smax and 1024 % 1 == 0:
+                e = 0
+                t = s
+                while t % r == 0:
+                    t //= r
+                    e += 1
+                if r ** (e + 1) < 1024:
+                    s *= r
         p = s * l + 1
-        if not is_prime(p) or p.bit_length() > 31:
+        if p >= 1 << 31 or not is_prime(p) or pow(2, (p - 1) // l, p) == 1:
             continue
-        qq = next_prime(rng.getrandbits(31) | (1 << 30))
+        r = next_prime(rng.getrandbits(29) | (1 << 28))
+        qq = 2 * r + 1
+        while not is_prime(qq):
+            r = next_prime(r)
+            qq = 2 * r + 1
         n = p * qq
-        if n >= 1 << 64:
+        if n >= 1 << 63 or p == qq:
             continue
+        made += 1
         yield Case(f"s2_pm1base {n} {budget} {p} {l}", k=False, tag="pm1base")
 
 
@@ -615,6 +822,7 @@ def cases(tier, rng, extended=False):
     yield from gcdf_cases(rng, 300 * scale)
     yield from rho_cases(rng, 250 * scale)
     yield from pm1base_cases(rng, 300 * scale)
+    yield from ecm_search(rng, (600 if tier == "quick" else 40000) * (3 if extended else 1), per_class=2 if tier == "quick" else 8)
 
 
 def corpus_case(line):
@@ -732,6 +940,8 @@ def oracle(case, ans):
         if msg:
             return msg
         req = required(case) if len(a) >= 5 else None
+        if req and op in ("s2_ecm", "s2_ecm128") and not ecm_annotation_ok(case):
+            return "test construction error: the claimed point order does not check"
         if req:
             n, p, must = req
             r = parse_split(ans)
@@ -740,8 +950,14 @@ def oracle(case, ans):
                 return f"p = {p} (order = smooth * {a[-1]}, covered by the reported bounds) was not separated"
         return None
     if op == "s2_pm1base":
-        n = int(a[0])
-        return check_split(n, ans, pair=True)
+        n, budget, p, l = (int(v) for v in a[:4])
+        msg = check_split(n, ans, pair=True)
+        if msg:
+            return msg
+        j = larges_index(l)
+        if budget >= 1024 and j is not None and j < budget - 1000 and ans == "none":
+            return f"p = {p} (p - 1 = small part * {l}, large prime number {j} < budget - 1000) was not found"
+        return None
     if op == "s2_expmodn" or op == "s2_expmodn_large":
         n, g, e = int(a[0]), int(a[1]), int(a[2])
         return None if ans == str(pow(g, e, n)) else "result != g^e mod n"
